@@ -974,8 +974,8 @@ func checkC15(tier string, seed int64) int {
 						for _, v := range so.PL.Violations {
 							rep.Report("C15/served-grammar/"+grammarKey(v), fmt.Sprintf("muxer case %d round %d: %s", idx, r.N, v), ref)
 						}
-						// (whether gohlslib's own decoder accepts it is not part of C15: TARGETDURATION:0
-						// of sub-half-second segments is grammatical but rejected by Media.Unmarshal)
+						// (whether gohlslib's own decoder accepts it is not part of C15; C09 reads muxers with
+						// a real client)
 						if dec, probs := decodeAndCheck(so.Resp.Body); dec {
 							mu.Lock()
 							obs["served_playlists_decoded"]++
